@@ -16,7 +16,7 @@ TYPES = [("t1", "object"), ("t2", "t1"), ("t3", "object")]
 PREDS = {"p": ["t1"], "q": ["t1", "object"], "r": [], "s": ["t3"]}
 FUNCS = {"f": ["t1"], "g": [], "h": ["object", "object"]}
 OBJS = [["o1", "t2"], ["o2", "t1"], ["o3", "t3"], ["o4", "t2"]]
-CONSTS = [["k", "t3"]]
+CONSTS = [["k", "t3"], ["w0", "object"]]     # one constant of a declared type, one of the root type
 PARENT = {"t1": "object", "t2": "t1", "t3": "object", "object": None}
 
 
